@@ -49,13 +49,22 @@ Theorem c08_int_roundtrip : forall w z rest, (- 9223372036854775808 <= z < 92233
 Proof. exact val_int. Qed.
 Print Assumptions c08_int_roundtrip.
 
+(* the fixed point: printing the value that was read back ([embed]: a parsed value seen as a tree)
+   gives the same text again -- with c08_roundtrip: stringify . parse . stringify = stringify *)
+Theorem c08_fixpoint : forall t, twf t -> tcontainer t = true -> stringify (embed (normalize t)) = stringify t.
+Proof. exact stringify_fixpoint. Qed.
+Print Assumptions c08_fixpoint.
+
 (* non-vacuity: a tree with removed members, a pointer, controls, boundary integers *)
 Definition c08_ex : vt :=
   VObj [([1; 34; 92], VArr [VUndef; VNat 18446744073709551615; VInt (-9223372036854775808); VUndef]);
-        ([], VUndef); ([0], VPtr (VStr [0; 31; 127; 8; 47])); ([97], VObj [([98], VUndef)]); ([98], VInt 7)].
+        ([], VUndef); ([0], VPtr (VStr [0; 31; 127; 8; 47])); ([97], VObj [([98], VUndef)]); ([98], VInt 7);
+        ([99], VPtr (VPtr VUndef))].
 Example c08_example : parse 0 (stringify c08_ex) = JOk (normalize c08_ex) /\ rfc_ok (stringify c08_ex) = true.
 Proof. split; vm_compute; reflexivity. Qed.
 
-(* NOT proved (correspondence only): the fixed point stringify . parse . stringify and the
-   RFC validity of the whole text (proved for strings above; for whole texts the extracted
-   recogniser rfc_ok is run on every Stringify output of the check); reals (C10/C11). *)
+(* NOT proved (correspondence only): RFC validity of the WHOLE text as a run of the recogniser
+   rfc_ok (proved piecewise: strings c08_str_rfc_valid, integers are decimal numerals without
+   leading zeros (dec_wf), containers have the shape open / members joined by commas / close
+   (the two c08_comma_patch_sound theorems); the extracted rfc_ok is run on every Stringify output of the check);
+   reals: that NumberToString(17) emits a real numeral that reads back to the same double (C10/C11). *)
